@@ -3750,19 +3750,17 @@ Box<ITV>
     = (denominator > 0) ? relsym : reversed_relsym;
   // Revise the expression to take into account the denominator of the
   // maximum/minimum value for `var'.
+  // (The inhomogeneous term of `expr' is part of the relation.)
   Linear_Expression revised_expr;
-  PPL_DIRTY_TEMP_COEFFICIENT(d);
   if (corrected_relsym == LESS_THAN || corrected_relsym == LESS_OR_EQUAL) {
     if (bound_below) {
       revised_expr = expr;
-      revised_expr.set_inhomogeneous_term(Coefficient_zero());
-      revised_expr *= d;
+      revised_expr *= min_denom;
     }
   }
   else {
     if (bound_above) {
       revised_expr = expr;
-      revised_expr.set_inhomogeneous_term(Coefficient_zero());
       revised_expr *= max_denom;
     }
   }
